@@ -141,6 +141,12 @@ func NewPositionRange(lines []string, val *yaml.Node, minColumn int) (offsets Po
 	}
 
 END:
+	if len(offsets) == 0 {
+		// the value does not occur literally in the file (escape sequences): point at the node itself
+		return PositionRanges{
+			{Line: val.Line, FirstColumn: val.Column, LastColumn: val.Column},
+		}
+	}
 	return offsets
 }
 
